@@ -328,6 +328,9 @@ func fdSelectSimple(git glyph.ID) int {
 }
 
 func normaliseAngle(x float64) float64 {
+	if x > -180 && x <= 180 {
+		return x // already in range: keep the value exactly
+	}
 	y := math.Mod(x+180, 360)
 	if y < 0 {
 		y += 360
